@@ -31,9 +31,12 @@ CLAIMED["C10"] = dict(
         technique="deterministic simulation with fault injection on attribute values and on stream delivery: seeded faults x independently scheduled short-read delivery, differential isolation oracle against the document without the offending elements, deterministic step budget",
         text="1-3 attribute faults per run from a grammar of syntactically malformed values (path data, transform, colour, length, points, viewBox, number) and use retargeting (missing, self, ancestor, mutual cycle), biased to containers, referenced elements and first/last children, injected into generated documents; the damaged document and the document without the offending elements reach SVG.parse through independently drawn delivery schedules (StringIO, BytesIO, short-read byte/text streams incl. 1-byte reads, simulated file with short raw reads). Oracles: no exception, bounded line steps, identity of every element outside the exempt set. Faults and schedules are sampled per seed, not enumerated exhaustively.",
         note="Trusted: the exempt-set computation over the generator's own tree; observation through abs(Path(copy)) of every rendered shape plus text/title/desc content; the fault grammar contains only syntactically malformed values (zero/negative sizes are legal and are not injected); step budget 20x the pinned tree's maximum.")
-BUILDING = {
- "C20": "check under construction (claimed in DESIGN.md 5.6; not yet registered, so not claimed at this commit)",
-}
+CLAIMED["C20"] = dict(
+        level="fault_enumeration", ref="DESIGN.md 5.6",
+        technique="deterministic simulation with fault injection on a simulated disk: write -> crash-after-ack freeze -> read-back histories over three generations, short raw reads/writes, injected ENOSPC/EIO at enumerated raw writes and on close, seeded document and tree generation",
+        text="Three-generation write/read histories over a simulated disk on which only what the raw file accepted is durable: string_xml and write_xml to plain, svgz, path-like names and caller-owned text/binary files; the image is frozen the instant the call returns (no GC, nothing flushed on the library's behalf); raw writes/reads are short; OSError is injected at a raw write chosen among those of the fault-free run, or on close. Oracles: the acknowledged image is a complete gzip stream/well-formed XML, no silent loss under I/O errors, shapes/paint/ids/rendered stroke width equal within the six-decimal matrix precision, fixed point from generation 1. One known finding (arc radii pass through d() with six significant digits) is listed. Sampled, not enumerated exhaustively.",
+        note="Trusted: xml.etree as independent well-formedness check; tolerance 2e-6*(1+max local or absolute coordinate)*max(1, viewport scale); the element class and text elements are not compared; gzip reads go through the real BufferedReader over the short-reading raw file.")
+BUILDING = {}
 
 NA = {
  "C01": "pure function string -> segment list; no schedule, fault, crash point or history for a simulator to act on (needs a reference interpreter on generated inputs = property-based/differential testing). DESIGN.md 6.",
